@@ -13,7 +13,23 @@ use std::sync::Arc;
 /// ta(pu, k, x), tb(pu, k, y): protected, the privacy unit is the column pu; pp(k, w): public.
 /// styles: `own` (unit = pu, hashed), `nohash` (unit = pu, not hashed), `weight` (unit = pu with the weight column wt),
 /// `fk` (ta's unit is its row id rid; tc(r, k, z) is protected through the nullable foreign key r -> ta.rid)
-fn world(style: &str) -> Hierarchy<Arc<Relation>> {
+fn world(style: &str, aliased: bool) -> Hierarchy<Arc<Relation>> {
+    // `aliased`: every table lives at a path that differs from its relation name and is registered under both (what
+    // `io::Database::relations()` does); queries and the privacy-unit definition use the relation names
+    let base = world0(style);
+    if !aliased { return base; }
+    let mut out: Vec<(Vec<String>, Arc<Relation>)> = vec![];
+    for (path, r) in base.iter() {
+        let name = path.last().unwrap().clone();
+        let t: Relation = Relation::table().name(name.as_str()).path(vec![format!("{name} storage")]).schema(r.schema().clone()).size(100).build();
+        let t = Arc::new(t);
+        out.push((vec![name.clone()], t.clone()));
+        out.push((vec![format!("{name} storage")], t));
+    }
+    out.into_iter().collect()
+}
+
+fn world0(style: &str) -> Hierarchy<Arc<Relation>> {
     let t = |name: &str, c: &str| -> Relation {
         let mut cols = vec![("pu", DataType::integer_interval(0, 5)), ("k", DataType::integer_interval(0, 3)), (c, DataType::optional(DataType::integer_interval(-3, 3)))];
         if style == "weight" { cols.push(("wt", DataType::integer_interval(1, 3))); }
@@ -87,7 +103,7 @@ pub fn gen(rng: &mut Rng, _k: usize, _tier: &str) -> J {
         let (unit, w) = match (style, which) { ("fk", 0) => (r[3].as_i64(), 1), ("fk", 2) => (r[0].as_i64().filter(|x| rids.contains(x)), 1), ("weight", _) => (r[0].as_i64(), r[3].as_i64().unwrap_or(1)), _ => (r[0].as_i64(), 1) };
         unit.map(|u| json!([u, w, r[1], r[2]])) }).collect() };
     let tracked = json!([tracked_of(&ta, 0), tracked_of(&tb, 1), tracked_of(&tc, 2)]);
-    json!({"tree": tree, "style": style, "ta": ta, "tb": tb, "tc": tc, "pp": pp, "tracked": tracked})
+    json!({"tree": tree, "style": style, "aliased": rng.chance(1, 4), "ta": ta, "tb": tb, "tc": tc, "pp": pp, "tracked": tracked})
 }
 
 fn cells(rows: &J, nullable_last: bool) -> Vec<Vec<Cell>> {
@@ -103,7 +119,9 @@ pub fn eval(case: &J) -> Outcome {
     for k in kind(&case["tree"]) { out.tag(&format!("op={k}")); }
     let style = case["style"].as_str().unwrap_or("own");
     out.tag(&format!("style={style}"));
-    let rels = world(style);
+    let aliased = case["aliased"] == true;
+    if aliased { out.tag("aliased-catalogue"); }
+    let rels = world(style, aliased);
     let rel = match guarded(|| { let q = parse(&sql).map_err(|e| e.to_string())?; Relation::try_from(QueryWithRelations::new(&q, &rels)).map_err(|e| e.to_string()) }) {
         Ok(Ok(r)) => r, Ok(Err(e)) => { out.tag("trivial"); out.tag("compile-err"); out.aux = json!({"sql": sql, "err": e}); return out; }
         Err((loc, msg)) => { out.tag("trivial"); out.fail(&format!("C18/pup/compile-panic/{}", site(&loc, &msg)), format!("{sql}: {msg}")); return out; } };
@@ -120,18 +138,25 @@ pub fn eval(case: &J) -> Outcome {
     let load = |db: &crate::exec::Db, keep: &dyn Fn(usize, &J) -> bool| {
         let sel = |name: &str, which: usize| -> J { J::Array(case[name].as_array().unwrap().iter().filter(|r| keep(which, r)).cloned().collect()) };
         let cut = |rows: J, n: usize| -> Vec<Vec<Cell>> { cells(&rows, true).into_iter().map(|r| r[..n].to_vec()).collect() };
+        // the rendered SQL reads a table at its path
+        let tn = |n: &str| -> String { if aliased { format!("{n} storage") } else { n.to_string() } };
         match style {
-            "weight" => { db.create_table("ta", &["pu", "k", "x", "wt"], &cut(sel("ta", 0), 4)); db.create_table("tb", &["pu", "k", "y", "wt"], &cut(sel("tb", 1), 4)); }
-            "fk" => { db.create_table("ta", &["pu", "k", "x", "rid"], &cut(sel("ta", 0), 4)); db.create_table("tb", &["pu", "k", "y"], &cut(sel("tb", 1), 3)); db.create_table("tc", &["r", "k", "z"], &cut(sel("tc", 2), 3)); }
-            _ => { db.create_table("ta", &["pu", "k", "x"], &cut(sel("ta", 0), 3)); db.create_table("tb", &["pu", "k", "y"], &cut(sel("tb", 1), 3)); }
+            "weight" => { db.create_table(&tn("ta"), &["pu", "k", "x", "wt"], &cut(sel("ta", 0), 4)); db.create_table(&tn("tb"), &["pu", "k", "y", "wt"], &cut(sel("tb", 1), 4)); }
+            "fk" => { db.create_table(&tn("ta"), &["pu", "k", "x", "rid"], &cut(sel("ta", 0), 4)); db.create_table(&tn("tb"), &["pu", "k", "y"], &cut(sel("tb", 1), 3)); db.create_table(&tn("tc"), &["r", "k", "z"], &cut(sel("tc", 2), 3)); }
+            _ => { db.create_table(&tn("ta"), &["pu", "k", "x"], &cut(sel("ta", 0), 3)); db.create_table(&tn("tb"), &["pu", "k", "y"], &cut(sel("tb", 1), 3)); }
         }
-        db.create_table("pp", &["k", "w"], &cells(&case["pp"], false));
+        db.create_table(&tn("pp"), &["k", "w"], &cells(&case["pp"], false));
     };
     load(&db, &|_, _| true);
     match db.run(pup.relation()) {
         Ok((names, res)) => {
             let idx = |n: &str| names.iter().position(|x| x == n);
-            let (Some(pi), Some(wi), Some(i0), Some(i1)) = (idx("_PRIVACY_UNIT_"), idx("_PRIVACY_UNIT_WEIGHT_"), idx("c0"), idx("c1")) else { out.tag("trivial"); out.tag("public-result"); out.aux = json!({"sql": sql, "names": names}); return out; };
+            let (Some(pi), Some(wi), Some(i0), Some(i1)) = (idx("_PRIVACY_UNIT_"), idx("_PRIVACY_UNIT_WEIGHT_"), idx("c0"), idx("c1")) else {
+                // every table a tree reads is protected: a result without privacy unit and weight columns means protected rows are passed on untracked
+                out.tag("public-result"); out.aux = json!({"sql": sql, "names": names});
+                out.fail(&format!("C05/pup/no-unit-column/{style}"), format!("{sql}: the privacy-unit-preserving rewriting of a query over protected tables returns the columns {:?}: no privacy unit, no weight", names));
+                out.imp = json!({"rows": "no-unit-column"});
+                return out; };
             let show = |c: &Cell| -> String { match c { Cell::Null => "null".to_string(), Cell::Int(v) => v.to_string(), Cell::Real(x) if x.fract() == 0.0 => (*x as i64).to_string(), Cell::Text(t) => t.trim_start_matches("md5_").to_string(), other => format!("{:?}", other) } };
             let mut rows: Vec<String> = res.iter().map(|r| format!("{}|{}|{}|{}", show(&r[pi]), show(&r[wi]), show(&r[i0]), show(&r[i1]))).collect();
             rows.sort();
